@@ -171,6 +171,15 @@ def check_forwarding_partial(ctx, oparams, cparams, by_keyword, dress=None):
     if dress:
         ctx.count('C19.forwarding_partials_through_modifier')
     p = functools.partial(outer, func=callee) if by_keyword else functools.partial(outer, callee)
+    # two partial objects stacked and NOT flattened by functools (the inner one carries an attribute), with a
+    # positional bound at each level: the callee at the inner, the first parameter of outer at the outer one
+    stacked = 0
+    opos = [q for q in oparams if q[1] in (PO, PK)]
+    if not by_keyword and not dress and (len(oparams) + len(cparams)) % 3 == 0:
+        p.label = 'kept apart'
+        stacked = 1 + (1 if opos else 0)
+        p = functools.partial(p, 0) if opos else functools.partial(p)
+        ctx.count('C19.forwarding_partials_stacked')
     rp = dict(workload='partial-forwarding', oparams=sigs.to_json(oparams), cparams=sigs.to_json(cparams),
               by_keyword=by_keyword, dress=dress)
     w = {'outer': '%sdef outer(func, %s): return func(%s)' % (dress_line + ' ' if dress_line else '', sigs.render(oparams), args),
@@ -211,7 +220,8 @@ def check_forwarding_partial(ctx, oparams, cparams, by_keyword, dress=None):
                   dict(w, exception=repr(e)), rp)
                 return
             plain = signatures.signature(p)
-        judge_forwarding_partial(ctx, sigtools, signatures, p, outer, callee, oparams, cparams, dress, ova, ovk, sig, plain, w, rp)
+        judge_forwarding_partial(ctx, sigtools, signatures, p, outer, callee, oparams, cparams, dress, ova, ovk, sig, plain, w, rp,
+                                 bound=max(stacked, 1))
 
 
 def case_no_mutation(oparams, cparams):
@@ -219,7 +229,7 @@ def case_no_mutation(oparams, cparams):
     return False
 
 
-def judge_forwarding_partial(ctx, sigtools, signatures, p, outer, callee, oparams, cparams, dress, ova, ovk, sig, plain, w, rp):
+def judge_forwarding_partial(ctx, sigtools, signatures, p, outer, callee, oparams, cparams, dress, ova, ovk, sig, plain, w, rp, bound=1):
     ob = sigs.shape_key(oparams)
     full_outer = (('func', PK, None, None),) + tuple(ob)
     if dress:
@@ -249,7 +259,7 @@ def judge_forwarding_partial(ctx, sigtools, signatures, p, outer, callee, oparam
     # declared equivalent: forwards(outer, callee) then bind one positional
     try:
         want = signatures.mask(signatures.forwards(signatures.signature(outer), sigtools.signature(callee),
-                                                   use_varargs=bool(ova), use_varkwargs=bool(ovk)), 1)
+                                                   use_varargs=bool(ova), use_varkwargs=bool(ovk)), bound)
     except ValueError:
         want = None
     if want is not None:
